@@ -265,6 +265,8 @@ func (fx *FX) applyContract(fr *frame, st *State, c *Contract, name string, call
 	case c == nil:
 		fx.havocAll(st)
 	case c.Pure:
+		fx.havoc(st, []string{"$alloc"})
+		logComp("$alloc")
 	case !c.HasMod:
 		fx.havocAll(st)
 	default:
@@ -545,8 +547,20 @@ func (fx *FX) doAppend(fr *frame, st *State, cc *ssa.CallCommon, args []Val, pos
 	fresh := fx.newRef(st, "app")
 	// single-element append is the common case: vararg slice built by the compiler as a 1-element array
 	var newArr Term
-	fx.declareArrayCopy(es)
-	newArr = app("acopy_"+sortID(es), SArr(SBV64, es), oldArr, bvbin("bvadd", sOff(s), sLen(s)), srcArr, srcOff, addLen)
+	single := false
+	if sl2, ok := cc.Args[1].(*ssa.Slice); ok && sl2.Low == nil && sl2.High == nil {
+		if al, ok := sl2.X.(*ssa.Alloc); ok {
+			if at, ok := derefType(al.Type()).Underlying().(*types.Array); ok && at.Len() == 1 {
+				single = true
+			}
+		}
+	}
+	if single {
+		newArr = Store(oldArr, bvbin("bvadd", sOff(s), sLen(s)), Select(srcArr, srcOff))
+	} else {
+		fx.declareArrayCopy(es)
+		newArr = app("acopy_"+sortID(es), SArr(SBV64, es), oldArr, bvbin("bvadd", sOff(s), sLen(s)), srcArr, srcOff, addLen)
+	}
 	newArr = fx.define("app_arr", newArr)
 	reg := fx.define("app_reg", Ite(fits, sReg(s), fresh))
 	newCap := withSign(fx.freshConst("app_cap", SBV64), true)
